@@ -53,3 +53,15 @@ pub use self::transaction::Transaction;
 
 #[cfg(test)]
 mod tests;
+
+/// Verification hooks: re-exports of internals for the external harness in /verif.
+#[cfg(sodiumfrp_sodium_rust_verif)]
+pub mod verif {
+    pub use crate::impl_::dep::Dep;
+    pub use crate::impl_::gc_node::{GcCtx, GcNode, GcNodeSnapshot, Tracer};
+    pub use crate::impl_::listener::Listener as ListenerImpl;
+    pub use crate::impl_::name::NodeName;
+    pub use crate::impl_::node::{IsNode, IsNodeExt, IsWeakNode, Node, WeakNode};
+    pub use crate::impl_::sodium_ctx::SodiumCtx as SodiumCtxImpl;
+    pub use crate::impl_::stream::Stream as StreamImpl;
+}
